@@ -319,7 +319,9 @@ TEXT = {
   "design_ref": "§3 C13",
   "note": "Hash function is a parameter; T2 (stored bytes are a function of covered fields and state) is not a theorem: it is "
           "decided on real nodes by the `variants` stream (every alteration of every field the hash does not cover, for user "
-          "blocks, contract blocks and momentums, delivered to a follower before the honest data; whatever is accepted must be "
+          "blocks, contract blocks and momentums, delivered to a follower before the honest data - generated contract blocks also by "
+          "gossip with their empty key fields filled - and AFTER the follower verified the original and lost it in a reorganisation; "
+          "whatever is accepted must be "
           "stored with the original's bytes; known finding F9 for ChangesHash); typed RLP decoding and JSON object structure are covered by "
           "Go-side round-trip monitors, T4 by an AST fact plus monitors (no Lean model of the ABI): ValidateSendBlock of every "
           "method directly, and owner-signed send blocks with non-canonical call data delivered end to end to real nodes "
